@@ -133,6 +133,22 @@ def rsaPkcs1v15 (h : RsaHash) : SigScheme RsaKey (Nat × Nat) where
     | none => .err "rsa: digest size / message too long for RSA key size"
   verify pk digest sig := if rsaVerifyPkcs1v15 pk.1 pk.2 h digest sig then .valid else .invalid
 
+/-- RSAES-PKCS1-v1_5 / RSAES-OAEP of `Kit.Crypto.Rsa` as public-key encryption schemes
+(`rand` = the padding string PS, resp. the OAEP seed; RSA1_5 ignores the label). -/
+def rsaPkcs1v15Pke : PkeScheme RsaKey (Nat × Nat) where
+  pub key := (key.n, key.e)
+  enc pk msg _ rand := match rsaEncryptPkcs1v15 pk.1 pk.2 msg rand with
+    | some c => .ok c | none => .err "rsa: message too long / bad padding string"
+  dec key ct _ := match rsaDecryptPkcs1v15 key.n key.d ct with
+    | some m => .ok m | none => .err "rsa: decryption error"
+
+def rsaOaepPke (h : RsaHash) : PkeScheme RsaKey (Nat × Nat) where
+  pub key := (key.n, key.e)
+  enc pk msg label rand := match rsaEncryptOaep pk.1 pk.2 h label msg rand with
+    | some c => .ok c | none => .err "rsa: message too long / bad seed"
+  dec key ct label := match rsaDecryptOaep key.n key.d h label ct with
+    | some m => .ok m | none => .err "rsa: decryption error"
+
 /-- A toy key (n = 11·17, e = 7, d = 23) for which the key equation is checked exhaustively. -/
 def toyRsaKey : RsaKey where
   n := 187
